@@ -68,6 +68,7 @@ def gen_script(rnd):
     fam = set()
     shapes = set()
     p = 21888242871839275222246405745257275088548364400416034343698204186575808495617
+    fnames = rnd.sample(["f0", "f1", "f2", "f_0", "f.0", "f-0", "mix.col", "mix_col", "g1", "G1"], nfun)
     for k in range(nfun):
         ar = rnd.randint(1, 3)
         args = ["a%d" % i for i in range(ar)]
@@ -105,7 +106,7 @@ def gen_script(rnd):
         if rnd.random() < 0.3:
             res[0] = "%s + %s" % (res[0], rnd.choice(names))     # a result that is not a single wire
             shapes.add("result-sum")
-        lines.append("@subqap(\"f%d\")" % k)
+        lines.append("@subqap(\"%s\")" % fnames[k])
         lines.append("def f%d(%s):" % (k, ", ".join(args)))
         lines.extend(body)
         lines.append("    return %s" % (res[0] if nres == 1 else "[" + ", ".join(res) + "]"))
@@ -116,6 +117,16 @@ def gen_script(rnd):
         lines.append("x%d = %s(%d)" % (i, "PubVal" if rnd.random() < 0.3 else "PrivVal", v))
         names.append("x%d" % i)
     ncalls = 0
+    repeat_const = funs and rnd.random() < 0.3       # the same function called with constant arguments that differ between calls
+    if repeat_const:
+        g, gar, gres = rnd.choice(funs)
+        x = rnd.choice(names)
+        for j, cst in enumerate(rnd.sample([1, 2, 3, 5], 2)):
+            args = [x] + [str(cst)] * (gar - 1) if gar > 1 else [x]
+            lines.append("q%d = %s(%s)%s" % (j, g, ", ".join(args), "[0]" if gres > 1 else ""))
+            names.append("q%d" % j)
+            ncalls += 1
+        shapes.add("same-function-different-constants")
     for j in range(rnd.randint(1, 5)):
         if funs and rnd.random() < 0.7:
             g, gar, gres = rnd.choice(funs)
@@ -290,8 +301,23 @@ def validate(R, qap, wd, src, cell, err, rc, digests):
             fn = calls[call]
             want = sorted(sets.get(call, []))
             byfn.setdefault(fn, []).append((call, want))
+        # the schedule names the equation file of every call
+        sched_file = {}
+        for ln in (sched_t or "").splitlines():
+            tk = ln.split()
+            if tk and tk[0] == "[function]" and len(tk) >= 3:
+                sched_file[tk[1]] = tk[2]
         for fn, lst in byfn.items():
-            ft = rd("pysnark_eqs_" + fn)
+            path = sched_file.get(lst[0][0])
+            if path is None:
+                problems.append(("function-not-scheduled", "call %s of %s is not in the schedule" % (lst[0][0], fn)))
+                continue
+            if len({sched_file.get(c) for c, _ in lst}) != 1:
+                problems.append(("function-file-differs", "calls of %s are scheduled with different equation files" % fn))
+            try:
+                ft = open(path if os.path.isabs(path) else os.path.join(wd, path)).read()
+            except OSError:
+                ft = None
             ncomp += 1
             R.count("function_files_compared")
             if ft is None:
